@@ -286,4 +286,22 @@ def partitionOf (base : Nat) (p : Program) : Partition :=
     let parts := partsOf r B
     { parts := mkParts s r parts base, user := userNames s, overall := s.outputs.map (·.1) }
 
+/-! ## the decidable hypothesis of `partition_wf_partial` -/
+
+/-- dependency closures are closed under the child relation (node ids suffice) -/
+def RankSrc.closedB (s : RankSrc) : Bool :=
+  s.ids.all fun a => (s.structDeps a).all fun b => (s.structCh b).all fun c => (s.structDeps a).contains c
+
+/-- per-rank part of the check -/
+def rankGoodB (s : RankSrc) (r : Nat) : Bool :=
+  s.closedB && decide s.ids.Nodup && decide ((s.recvsOf r).map (·.1)).Nodup
+  && (s.sendsOf r).all (fun cd =>
+      (s.structDeps cd.2).all (fun a => !s.isRecv a || (s.valueDeps cd.2).contains a)
+      && !s.isRecv cd.2)
+
+/-- executable sufficient condition for `GoodProgram` -/
+def checkGood (p : Program) : Bool :=
+  (match diagnose p.commGraph with | .ok _ => true | .error _ => false)
+  && (List.range p.length).all fun r => rankGoodB (p.rank r) r
+
 end Pt.Dist
